@@ -128,7 +128,7 @@ def run_case(case):
     rec = {"id": case.get("id"), "exn": exn, "msg": st.get("msg"), "nvars": len(R.kinds), "ncons": len(cons), "npub": len(R.pubs),
            "dig": [D.digest_vars(p, R.kinds, R.pubs, R.privs), D.digest_cons(p, cons), D.digest_outs(p, outs), D.digest_exn(p, exn, cur)],
            "unsat": unsat[:5], "incoherent": st["coh"][:5], "floatbad": st.get("floatbad", False), "pc": st["pc"],
-           "shape": [D.digest_cons(p, cons), "".join(R.kinds)],
+           "shape": [D.digest_cons(p, cons), "".join(R.kinds), D.digest_outs(p, [(t, 0, l) for t, v, l in outs if t > 0])],
            "outs_tv": [(t, v) for t, v, _ in outs if t >= 0][:200]}
     if FULL or case.get("full"):
         rec["trace"] = {"kinds": "".join(R.kinds), "pubs": R.pubs, "privs": R.privs, "cons": cons, "outs": outs, "globals": cur}
